@@ -44,7 +44,7 @@ theorem ret_source {s s' : State} {t : Nat} {op : Op} {r : Res} (st : Step s (.r
 /-- Threads by (identifier, operation, phase) are the same after a loop step. -/
 theorem loopSteps_thread {s : State} {l : Loop} {lab : Label} {s' : State} (h : (lab, s') ∈ loopSteps s l)
     {x : Thread} (hx : x ∈ s'.threads) : ∃ y ∈ s.threads, y.id = x.id ∧ y.op = x.op ∧ y.ph = x.ph := by
-  have h9 := (loopSteps_frame h).2.2.2.2.2.2.2.2
+  have h9 := (loopSteps_frame h).2.2.2.2.2.2.2.2.2
   have : (x.id, x.op, x.ph) ∈ s'.threads.map (fun t => (t.id, t.op, t.ph)) := List.mem_map_of_mem hx
   rw [h9] at this
   obtain ⟨y, hy, he⟩ := List.mem_map.mp this
